@@ -636,13 +636,15 @@ TickitPen *tickit_window_get_pen(const TickitWindow *win)
 
 void tickit_window_set_pen(TickitWindow *win, TickitPen *pen)
 {
+  /* Take the new reference first: pen may be the pen the window already has,
+   * and the window may hold the only reference to it */
+  if(pen)
+    tickit_pen_ref(pen);
+
   if(win->pen)
     tickit_pen_unref(win->pen);
 
-  if(pen)
-    win->pen = tickit_pen_ref(pen);
-  else
-    win->pen = NULL;
+  win->pen = pen;
 }
 
 void tickit_window_expose(TickitWindow *win, const TickitRect *exposed)
